@@ -186,7 +186,7 @@ class C13(Prop):
     all_branches = ["conc:linearised", "ingest:plain", "ingest:emergency", "ingest:emergency-dropped", "ingest:capacity-noop",
                     "ingest:auto", "ingest:auto-all", "ingest:auto-error-logged", "digest:none", "digest:zero",
                     "digest:pos", "digest:neg", "digest:errors", "digest:empty", "autophagy:some", "autophagy:none",
-                    "autophagy:raises-on-aware-timestamp"]
+                    "autophagy:raises-on-aware-timestamp", "set:maxq", "set:thr", "set:ret", "set:ontox"]
     assumptions = [
         "digesters and the on_toxic callback return a dict / None or raise an Exception; they do not call back into "
         "the lysosome and do not raise BaseException",
@@ -264,10 +264,45 @@ class C13(Prop):
             return f"digest {rng.choice(['none', 'none', 0, 1, 1, 2, 3, 5, 100, -1, -2])}"
         if r < 0.84:
             return "autophagy"
-        if r < 0.97:
+        if r < 0.95:
             base = abs(ret)
             return f"adv {max(0, rng.choice([base - 1, base, base + 1, 1, base // 2, 0, 2 * base]))}"
+        if r < 0.985:
+            return self._set(rng, ret)
         return "clearbin"
+
+    def _set(self, rng, ret):
+        """a public attribute re-assigned on the live object"""
+        what = rng.choice(["maxq", "maxq", "thr", "thr", "ret", "ontox"])
+        if what == "maxq":
+            return f"set maxq {rng.choice([2, 2, 3, 4, 6, 8, 1, 0, 1000])}"
+        if what == "thr":
+            return f"set thr {rng.choice([1, 2, 3, 4, 5, 8, 0, 1000])}"
+        if what == "ret":
+            return f"set ret {rng.choice(list(RETS) + [ret])}"
+        return f"set ontox {rng.choice(['set', 'none'])}"
+
+    def _reconfigured(self, rng):
+        """settings re-assigned between calls: capacity lowered under a full queue, threshold lowered to the queue
+        length, retention shortened over queued items, the callback removed and re-installed around sensitive items"""
+        mq = rng.choice([3, 4, 6, 8])
+        lines = [f"cfg {mq} {rng.choice([mq + 1, 1000])} {rng.choice(RETS)} {rng.choice(['ssss', 'bbbb', 'sbsb'])} b "
+                 f"{rng.choice(['set', 'none'])}"]
+        nid = 0
+        for _ in range(rng.randint(1, mq)):
+            nid += 1
+            lines.append(rng.choice([f"ingest {rng.choice(TYPES)} {nid} {rng.choice([0, 1, 2, 3])}",
+                                     f"ingest_sensitive {nid} {rng.choice([0, 1])}"]))
+        for _ in range(rng.randint(1, 4)):
+            lines.append(rng.choice([f"set maxq {rng.choice([2, 2, 3, mq - 1, mq + 2])}",
+                                     f"set thr {rng.choice([1, 2, nid, nid + 1])}",
+                                     f"set ret {rng.choice(RETS)}", "set ontox none", "set ontox set"]))
+            for _ in range(rng.randint(1, 3)):
+                nid += 1
+                lines.append(rng.choice([f"ingest {rng.choice(TYPES)} {nid} {rng.choice([0, 1, 2, 3])}",
+                                         f"ingest_sensitive {nid} {rng.choice([0, 1])}", "digest 1", "digest none",
+                                         "autophagy", f"adv {rng.choice([1, 3515625, 3600000000])}"]))
+        return lines
 
     PAST = -63_902_822_400_000_000        # datetime(1, 1, 1) on the harness clock (t0 = 2026-01-01), µs
     FUTURE = 251_635_075_199_999_999      # datetime.max
@@ -360,6 +395,8 @@ class C13(Prop):
             elif r < 0.28:
                 yield {"lines": self._shared_with_daemon(rng),
                        "note": "lysosome shared by an application and an AutophagyDaemon"}
+            elif r < 0.34:
+                yield {"lines": self._reconfigured(rng), "note": "public settings re-assigned between calls"}
             else:
                 yield {"lines": self._history(rng, rng.choice([1, 2, 3, 4, 6, 8, 10, 12, 14])), "note": "random history"}
 
@@ -454,6 +491,7 @@ class C13(Prop):
             ctx["toxlog"].append(c["seq"])
             if c["c"] == 0:
                 raise RuntimeError("on_toxic")
+        ctx["on_toxic_fn"] = on_toxic
         lys = L.Lysosome(max_queue_size=mq, auto_digest_threshold=at, retention_hours=ret / 3_600_000_000,
                          digesters=digesters or None, on_toxic=on_toxic if ontox == "set" else None, silent=True)
         orig = lys.ingest
@@ -668,6 +706,18 @@ class C13(Prop):
                     self.clock.advance_us(int(t[1]))
                     d, snap = self._dump(ctx)
                     obs.append("ok | " + d)
+                elif t[0] == "set" and self._wellformed(t):
+                    lys = ctx["lys"]
+                    if t[1] == "maxq":
+                        lys.max_queue_size = int(t[2])
+                    elif t[1] == "thr":
+                        lys.auto_digest_threshold = int(t[2])
+                    elif t[1] == "ret":
+                        lys.retention_period = self.L.timedelta(microseconds=int(t[2]))
+                    else:
+                        lys.on_toxic = ctx["on_toxic_fn"] if t[2] == "set" else None
+                    d, snap = self._dump(ctx)
+                    obs.append("ok | " + d)
                 elif self._wellformed(t):
                     del ctx["lockev"][:]
                     if tid not in workers:
@@ -725,6 +775,9 @@ class C13(Prop):
             return len(t) == 1
         if t[0] == "adv":
             return len(t) == 2 and t[1].isdigit()
+        if t[0] == "set":
+            return len(t) == 3 and ((t[1] in ("maxq", "thr") and t[2].isdigit()) or (t[1] == "ret" and isint(t[2]))
+                                    or (t[1] == "ontox" and t[2] in ("set", "none")))
         return False
 
     # --- two threads under the line-level scheduler -------------------------------------------------------------
@@ -813,6 +866,10 @@ class C13(Prop):
         expired, processed = set(), []
         prev_bin = []
         aware = set()             # seqs whose created_at is timezone-aware
+        armed = True              # the queue has been seen within the capacity in force (the bound is an invariant of
+        #                           a CONSTANT capacity: lowering it under a longer queue suspends the clause until the
+        #                           queue is back within it)
+        ontox_changed = False     # the callback was removed / re-installed on the live object
         for idx, (line, o, snap) in enumerate(zip(case["lines"], obs, snaps)):
             _tid, t = strip_thread(line.split())
             if not t:
@@ -823,9 +880,17 @@ class C13(Prop):
                 n_ing, types, queued, expired, processed = 0, {}, [], set(), []
                 prev_bin = []
                 aware = set()
+                armed, ontox_changed = True, False
                 continue
             if o in ("bad-op", "dead") or mq is None:
                 continue
+            if t[0] == "set" and o.startswith("ok"):
+                if t[1] == "maxq":
+                    mq = int(t[2])
+                    armed = len(queued) <= mq
+                elif t[1] == "ontox":
+                    ontox_changed = True
+                    ontox = ontox or t[2] == "set"
             is_call = t[0] in ("prune", "ingest", "ingestat", "ingest_error", "ingest_sensitive", "digest", "autophagy", "conc")
             if not is_call:
                 if snap is not None and "bin" in snap:
@@ -861,7 +926,9 @@ class C13(Prop):
             if snap is None:
                 continue
             # 2. queue bound
-            if mq >= 2 and snap["qsize"] > mq:
+            if not armed and snap["qsize"] <= mq:
+                armed = True
+            if armed and mq >= 2 and snap["qsize"] > mq:
                 out.append(Violation("queue_bounded", f"queue <= {mq}", f"queue size {snap['qsize']}", idx))
             if snap["qsize"] != len(snap["qseq"]):
                 out.append(Violation("queue_size_reported", str(len(snap["qseq"])), str(snap["qsize"]), idx))
@@ -917,7 +984,13 @@ class C13(Prop):
                     out.append(Violation("toxic_callback_exactly_once", "no duplicate", f"{tl}", idx))
                 if any(types.get(s) != "tox" for s in tl):
                     out.append(Violation("toxic_callback_exactly_once", "only sensitive items", f"{tl}", idx))
-                if t[0] != "conc":
+                if t[0] != "conc" and ontox_changed:
+                    # while the callback is removed nothing can reach it: what remains of the clause is "never twice, only
+                    # sensitive items (checked above), only processed ones"
+                    if not set(tl) <= set(processed):
+                        out.append(Violation("toxic_callback_exactly_once", "callback only for processed items",
+                                             f"{sorted(tl)} vs processed {sorted(processed)}", idx))
+                elif t[0] != "conc":
                     want = sorted(s for s in processed if types.get(s) == "tox")
                     if sorted(tl) != want:
                         out.append(Violation("toxic_callback_exactly_once",
